@@ -55,6 +55,8 @@ def trace_validation(ctx):
     with open(t["out"], errors="replace") as f:
         out = f.read()
     accepted = t["rc"] == 0 and "No error has been found" in out and "TRACE-REJECTED" not in out
+    if not accepted and "TRACE-REJECTED" not in out:
+        raise lib.ToolError("TLC could not validate the trace (rc=%s): %s" % (t["rc"], out[-300:].replace("\n", " ")))
     r = res["per_property"]["C15"]
     r.setdefault("notes", {})["trace_accepted"] = accepted
     if not accepted:
